@@ -532,6 +532,14 @@ def lastIsPart : List Item → Bool
   | [x] => x == .part
   | _ :: xs => lastIsPart xs
 
+/-- the record of a client that was accepted and turned away at once: its socket closed (end-of-stream for the client),
+discarded from `clients`, nothing else ever created for it -/
+def turnedAway : Cli := { cred := .good, phase := .done, clientOpen := true, shut := true }
+
+/-- `Server.accept`: `clients.add(sock)`, `_accept_method(sock)` raises, the `except` clause logs, discards and closes -/
+def rejectNew (s : St) (k : Nat) : St :=
+  { (s.set k turnedAway) with ids := s.ids ++ [k], accepted := s.accepted + 1 }
+
 inductive Op where
   | connect (k : Nat) (cred : Cred)
   | call (k : Nat) (r : ReqKind)
@@ -550,6 +558,9 @@ inductive Op where
   /-- an event of the environment: the accept loop's `listener.accept()` fails once with an error that is not EINTR / EAGAIN
   and not the listener being gone -/
   | acceptFault
+  /-- a well-behaved client connects and the server cannot start a thread / child process for it (`spawn()`: "can't start
+  new thread", `os.fork()`: EAGAIN, ENOMEM - an event of the environment; threaded and forking servers) -/
+  | connectNoSpawn (k : Nat)
   deriving Repr, Inhabited
 
 /-- may the client still speak the protocol -/
@@ -608,6 +619,11 @@ def step (s : St) : Op → Except Err (St × Obs)
        | some s' => .ok (s', .none)
        | none => .error .notModelled)
     else .ok (baseClose s, .none)
+  | .connectNoSpawn k =>
+    if (s.cli k).phase != .absent || !(s.cfg.kind == .threaded || s.cfg.kind == .forking) then .error .valueError
+    else if !s.listening then .ok (s, .refused)
+    else if !canAccept s then .error .valueError
+    else .ok (rejectNew s k, .ok)
   | .acceptFault =>
     -- (an event only while the accept thread is in `accept()`)
     if !canAccept s then .error .valueError
